@@ -574,7 +574,7 @@ func hasQueryForm(v ssa.Value) (bool, string) {
 			q := ls[2].val
 			// guarded by q != ""
 			fn := bo.Parent()
-			conds := ifsOn(fn, func(c ssa.Value) bool {
+			conds := ifsOnV(fn, func(c ssa.Value) bool {
 				cmp, ok := c.(*ssa.BinOp)
 				if !ok || cmp.Op != token.NEQ || cmp.X != q {
 					return false
@@ -1023,7 +1023,7 @@ func ruleF7(c *Ctx) *RuleResult {
 			if !isNil || !k.IsNil() {
 				return
 			}
-			conds := ifsOn(fq, func(v ssa.Value) bool { f, _ := loadedField(v); return f == endl })
+			conds := ifsOnV(fq, func(v ssa.Value) bool { f, _ := loadedField(v); return f == endl })
 			if len(conds) > 0 && onlyIf(fq, call, conds, true) {
 				r.ok("fillSegmentQueue|eos-sentinel", c.Pos(call.Pos()), FuncName(fq), "the end-of-stream sentinel is pushed only for an ENDLIST playlist", "guarded by pl.Endlist")
 			} else {
@@ -1031,7 +1031,7 @@ func ruleF7(c *Ctx) *RuleResult {
 			}
 			// ... and exactly when the segment just downloaded is the last one listed: Segments[len-1] == seg
 			segF := c.Field("pkg/playlist", "Media", "Segments")
-			lastConds := ifsOn(fq, func(v ssa.Value) bool {
+			lastConds := ifsOnV(fq, func(v ssa.Value) bool {
 				bo, ok := v.(*ssa.BinOp)
 				if !ok || bo.Op != token.EQL {
 					return false
@@ -1143,7 +1143,7 @@ func ruleF8(c *Ctx) *RuleResult {
 			cnt++
 			n++
 			key := fmt.Sprintf("%s|setLeadingTimeConv#%d", FuncName(fn), cnt)
-			conds := ifsOn(fn, func(v ssa.Value) bool { f, _ := loadedField(v); return f != nil && f.Name() == "isLeading" })
+			conds := ifsOnV(fn, func(v ssa.Value) bool { f, _ := loadedField(v); return f != nil && f.Name() == "isLeading" })
 			if len(conds) > 0 && onlyIf(fn, call, conds, true) {
 				r.ok(key, c.Pos(call.Pos()), FuncName(fn), "only the leading stream installs the time origin", "guarded by isLeading")
 			} else {
